@@ -58,7 +58,9 @@ Obs(es, term) ==
   [lines |-> TextLines(es), term |-> term, api |-> ApiOf(es),
    rr |-> TRUE, rapi |-> Reading(TextLines(es)), hs |-> TRUE]
 
-Canon(k, v) == <<L("F", k, 0, v[1])>> \o [i \in 1..(Len(v) - 1) |-> L("C", 0, 0, v[i+1])]
+\* (a field without value lines is written "Name: " - the blank after the colon stays)
+Canon(k, v) == IF v = <<>> THEN <<L("F", k, 0, 0)>>
+               ELSE <<L("F", k, 0, v[1])>> \o [i \in 1..(Len(v) - 1) |-> L("C", 0, 0, v[i+1])]
 Splice(s, a, b, new) == SubSeq(s, 1, a - 1) \o new \o SubSeq(s, b + 1, Len(s))   \* replace a..b
 
 St(es, term) == [els |-> es, term |-> term]
